@@ -24,6 +24,8 @@ plan of HTTP outcomes and every behaviour of the decompression library (`World`)
 * `decompress_ok_means_tool_or_library_succeeded`: a failed external tool never counts as a successful decompression.
 * `prepare_docs_ok_means_resolved_file_verified`: the caller with one or two data directories and the path resolution
   afterwards: the file the challenge reads is the verified one.
+* `used_docsets_complete`, `used_docsets_sound`: the set of document sets handed to preparation is exactly what the
+  leaf tasks of the selected challenge select (every task counts, however its operation is named).
 * `crash_states_keep_offset_table_sound`: the offset-table assumption is *preserved* by the code: no state the
   preparation passes through — hence no crash — leaves a table that is valid by mtime but not the document's complete
   table (the table is built under `.offset.tmp` and published atomically).
@@ -286,6 +288,40 @@ example : (prepareDocs w0 specDeclared true ⟨some ⟨61, .pub, 1⟩, none, non
 example : (prepareDocs w0 specDeclared true emptyFS ⟨none, some ⟨40, .pub, 1⟩, none, none, none, 2⟩ []).res = .done () ∧
     (resolveDoc true (prepareDocs w0 specDeclared true emptyFS ⟨none, some ⟨40, .pub, 1⟩, none, none, none, 2⟩ []).track
       (prepareDocs w0 specDeclared true emptyFS ⟨none, some ⟨40, .pub, 1⟩, none, none, none, 2⟩ []).corpus).isSome = true := by decide
+
+/-! ## 7. which document sets are prepared: everything some task of the selected challenge reads -/
+
+/-- **used_docsets_complete**: for every track (document sets with any targets) and every schedule (any mix of tasks,
+    filters, repeated or equal-looking operations): a document set that *some* leaf task of the selected challenge
+    selects is in the set handed to preparation -/
+theorem used_docsets_complete (docs : List DocSet) (tasks : List TaskSel) (u : List DocSet)
+    (h : usedDocsets docs tasks = some u) (t : TaskSel) (ht : t ∈ tasks) (d : DocSet) (hd : d ∈ docs) (hs : selects t d = true) :
+    d ∈ u := by
+  unfold usedDocsets at h
+  split at h
+  · rename_i he; simp [List.isEmpty_iff] at he; subst he; cases hd
+  · split at h
+    · cases h
+    · cases h
+      exact List.mem_filter.mpr ⟨hd, List.any_eq_true.mpr ⟨t, ht, hs⟩⟩
+
+/-- … and nothing else is prepared: every member of the set is read by some task -/
+theorem used_docsets_sound (docs : List DocSet) (tasks : List TaskSel) (u : List DocSet)
+    (h : usedDocsets docs tasks = some u) (d : DocSet) (hd : d ∈ u) : d ∈ docs ∧ ∃ t ∈ tasks, selects t d = true := by
+  unfold usedDocsets at h
+  split at h
+  · cases h; cases hd
+  · split at h
+    · cases h
+    · cases h
+      have := List.mem_filter.mp hd
+      exact ⟨this.1, List.any_eq_true.mp this.2⟩
+
+/-- non-vacuity: two tasks with equal-looking (unnamed, same type) operations that restrict the indices differently
+    use both document sets; a search task uses none -/
+example : usedDocsets [⟨1, 0, some 10, none, true⟩, ⟨2, 0, some 11, none, true⟩]
+    [⟨true, none, [10], []⟩, ⟨false, none, [], []⟩, ⟨true, none, [11], []⟩] =
+    some [⟨1, 0, some 10, none, true⟩, ⟨2, 0, some 11, none, true⟩] := by decide
 
 /-- the zero-lines quirk is gone: an empty document where 10 lines are expected is an explicit error, and neither the
     table nor its temporary file stays behind -/
